@@ -5,6 +5,7 @@ pub mod c02;
 pub mod c03;
 pub mod c04;
 pub mod c05;
+pub mod c06;
 pub mod c07;
 pub mod c08;
 pub mod c09;
@@ -37,6 +38,7 @@ pub fn all() -> Vec<PropertyDef> {
         c03::def(),
         c04::def(),
         c05::def(),
+        c06::def(),
         c07::def(),
         c08::def(),
         c09::def(),
